@@ -44,7 +44,7 @@ type c10Sess struct {
 	closed  bool
 	closeCh chan struct{}
 	pings   int
-	firstPing int // 0 ok, 1 write-timeout, 2 EOF, 3 other
+	firstPing int // 0 ok, 1 write-timeout, 2 EOF, 3 other, 4 ok but the remote hangs up right after
 }
 
 type c10Env struct {
@@ -145,6 +145,12 @@ func verifStub_sessPing(s *yamux.Session) (time.Duration, error) {
 	if cs.closed {
 		return 0, yamux.ErrSessionShutdown
 	}
+	if cs.pings == 1 && cs.firstPing == 4 {
+		// the peer answers the first ping and hangs up at once
+		cs.closed = true
+		close(cs.closeCh)
+		return time.Millisecond, nil
+	}
 	if cs.pings == 1 {
 		switch cs.firstPing {
 		case 1:
@@ -231,7 +237,7 @@ func verifHarness_C10_pool() {
 			if out == 0 {
 				c10.sessionOutcome = verifChoose("yamux-setup", 2)
 				if c10.sessionOutcome == 0 {
-					c10.pingOutcome = verifChoose("first-ping", 4)
+					c10.pingOutcome = verifChoose("first-ping", 5)
 				}
 			}
 			switch {
@@ -239,6 +245,8 @@ func verifHarness_C10_pool() {
 				verifAction("connect-fails")
 			case c10.sessionOutcome != 0:
 				verifAction("yamux-setup-fails")
+			case c10.pingOutcome == 4:
+				verifAction("session-established-then-remote-hangs-up")
 			case c10.pingOutcome != 0:
 				verifAction("first-ping-fails")
 			default:
